@@ -16,6 +16,8 @@ limitations under the License.
 
 #include "libcellml/analysermodel.h"
 
+#include <utility>
+
 #include "analysermodel_p.h"
 #include "utilities.h"
 
@@ -399,20 +401,19 @@ bool AnalyserModel::areEquivalentVariables(const VariablePtr &variable1,
     // means that we can safely cache the result of a call to that utility. In
     // turn, this means that we can speed up any feature (e.g., code generation)
     // that also relies on that utility. When it comes to the key for the cache,
-    // we use the Cantor pairing function with the address of the two variables
-    // as parameters, thus ensuring the uniqueness of the key (see
-    // https://en.wikipedia.org/wiki/Pairing_function#Cantor_pairing_function).
+    // we use the ordered pair of the addresses of the two variables (smallest
+    // address first), which is unique for every unordered pair of variables.
+    // Note: a pairing function (e.g., Cantor's) computed in uintptr_t arithmetic
+    //       is not injective since it wraps for real (47-bit) addresses.
 
     auto v1 = reinterpret_cast<uintptr_t>(variable1.get());
     auto v2 = reinterpret_cast<uintptr_t>(variable2.get());
 
     if (v2 < v1) {
-        v1 += v2;
-        v2 = v1 - v2;
-        v1 = v1 - v2;
+        std::swap(v1, v2);
     }
 
-    auto key = ((v1 + v2) * (v1 + v2 + 1) >> 1U) + v2;
+    auto key = std::make_pair(v1, v2);
     auto cacheKey = mPimpl->mCachedEquivalentVariables.find(key);
 
     if (cacheKey != mPimpl->mCachedEquivalentVariables.end()) {
